@@ -4,6 +4,18 @@ import importlib
 LIBS = ["bitset", "scalars", "codec", "cursor", "gen_access", "groups", "arrays", "gen_more"]
 
 
+import re
+
+# quick tier: C10 and C04 are unions of what other properties already run in full; keep a representative subset so that
+# the per-change check stays within minutes (the thorough tier runs everything)
+QUICK_SKIP = {
+    "C10": [r"^codec-.*<(char|int8|int16|uint16|int32|int64|float),", r"^codec-.*\[unchecked\]", r"^cursor/.*<(uint8,le|uint64,le|double,be)>", r"cursor traversal \((dm|init)\)", r"^groups/.*<b32_n8>",
+            r"\[content\]", r"^arrays/static_array_ref::.*<N=(2|3)>", r"^gen-prim_be"],
+    "C04": [r"^cursor/.*<(uint8,le|uint64,le)>", r"^groups/.*<b32_n8>"],
+    "C11": [r"^codec-.*<(char|int8|int16|uint16|int32|int64|float),", r"^cursor/.*<(uint8,le|uint64,le|double,be)>", r"^groups/.*<b32_n8>"],
+}
+
+
 def contracts_for(prop, tier):
     out = []
     mods = []
@@ -12,4 +24,7 @@ def contracts_for(prop, tier):
         if prop in m.SERVES:
             mods.append(m)
             out += [c for c in m.contracts(tier) if prop in c.props]
+    if tier != "thorough" and prop in QUICK_SKIP:
+        pats = [re.compile(p) for p in QUICK_SKIP[prop]]
+        out = [c for c in out if not any(p.search(c.ident()) for p in pats)]
     return out, mods
